@@ -16,6 +16,7 @@ import (
 )
 
 type verifTwoKinds struct {
+	pods   bool // the second kind is Pod (core group, like ConfigMap) instead of Widget
 	stanza bool // desired children carry an empty status stanza; nobody writes child status
 	w      *env.World
 	pc     *verifPC
@@ -26,7 +27,10 @@ func verifTwoKindsIsWidget(n string) bool { return n[0] == 'w' }
 
 func (t *verifTwoKinds) mk(n, x string) *unstructured.Unstructured {
 	var o *unstructured.Unstructured
-	if verifTwoKindsIsWidget(n) {
+	if verifTwoKindsIsWidget(n) && t.pods {
+		o = env.Obj("v1", "Pod", "ns", n, "")
+		o.Object["spec"] = map[string]interface{}{"k": x}
+	} else if verifTwoKindsIsWidget(n) {
 		o = env.Obj("apps.ex.com/v1", "Widget", "ns", n, "")
 		o.Object["spec"] = map[string]interface{}{"k": x}
 	} else {
@@ -43,7 +47,7 @@ func (t *verifTwoKinds) mk(n, x string) *unstructured.Unstructured {
 
 func (t *verifTwoKinds) value(n string) (string, bool) {
 	if verifTwoKindsIsWidget(n) {
-		o := t.w.Srv.Peek("widgets", "ns", n)
+		o := t.w.Srv.Peek(t.res2(), "ns", n)
 		if o == nil {
 			return "", false
 		}
@@ -60,11 +64,18 @@ func (t *verifTwoKinds) value(n string) (string, bool) {
 	return s, true
 }
 
+func (t *verifTwoKinds) res2() string {
+	if t.pods {
+		return "pods"
+	}
+	return "widgets"
+}
+
 func (t *verifTwoKinds) markHealthy() {
 	if t.stanza {
 		return
 	}
-	for _, res := range []string{"configmaps", "widgets"} {
+	for _, res := range []string{"configmaps", t.res2()} {
 		for _, o := range t.w.Srv.All(res) {
 			o.Object["status"] = map[string]interface{}{"observedGeneration": o.GetGeneration()}
 			t.w.Srv.Put(res, o)
@@ -81,7 +92,7 @@ func (t *verifTwoKinds) claims(n string) int {
 	c := 0
 	for _, rev := range t.w.Srv.Revs() {
 		for _, ck := range rev.Children {
-			if (ck.Kind == "Widget") != verifTwoKindsIsWidget(n) {
+			if (ck.Kind == "Widget" || ck.Kind == "Pod") != verifTwoKindsIsWidget(n) {
 				continue
 			}
 			for _, x := range ck.Names {
@@ -146,7 +157,15 @@ func VerifC07_TwoKinds() {
 		return &v1.CompositeHookResponse{Children: kids, Status: map[string]interface{}{"phase": "ok"}}, nil
 	}}
 	// the declaration order of the child resources is independent of the hook order
-	rules := []verifChildRule{{Res: env.ConfigMapRes, Strategy: verifStrategyOf(mA)}, {Res: env.WidgetRes, Strategy: verifStrategyOf(mW)}}
+	// the two kinds may live in different API groups (ConfigMap + Widget) or in
+	// the same one (ConfigMap + Pod); explored for the first hook order only
+	res2 := env.WidgetRes
+	if len(t.order) == 4 && t.order[0] == "a1" && t.order[1] == "a2" && rt.Bool("both-kinds-in-the-same-api-group") {
+		rt.Cover("twokinds/same-api-group")
+		t.pods = true
+		res2 = env.PodRes
+	}
+	rules := []verifChildRule{{Res: env.ConfigMapRes, Strategy: verifStrategyOf(mA)}, {Res: res2, Strategy: verifStrategyOf(mW)}}
 	declaredFirst := rt.Bool("widgets-declared-first")
 	if declaredFirst {
 		rules[0], rules[1] = rules[1], rules[0]
